@@ -17,19 +17,19 @@ def mc_cfg(ctx, name, c, invariants, properties, next_='Next'):
     return path
 
 
-def model_check(ctx, name, c, invariants=None, properties=None, expect=None, timeout=300):
+def model_check(ctx, name, c, invariants=None, properties=None, expect=None, timeout=300, next_='Next'):
     inv = sd.FILE_INVARIANTS if invariants is None else invariants
     props = sd.PROPERTIES + ['OidFresh'] if properties is None else properties
-    cfg = mc_cfg(ctx, name, c, inv, props)
+    cfg = mc_cfg(ctx, name, c, inv, props, next_=next_)
     return ctx.model_check('MCZStorage', cfg, name=name, expect_violation=expect, timeout=timeout)
 
 
-def simulate(ctx, name, c, num, depth, seed, next_='Next'):
+def simulate(ctx, name, c, num, depth, seed, next_='Next', properties=()):
     """-> list of behaviour file paths (parsing is left to the replay workers)"""
     wd = os.path.join(ctx.scratch, 'sim-' + name)
     os.makedirs(wd, exist_ok=True)
     cfg = os.path.join(wd, name + '.cfg')
-    tlc.write_cfg(cfg, constants=sd.tla_consts(c), next_=next_)
+    tlc.write_cfg(cfg, constants=sd.tla_consts(c), next_=next_, properties=properties)
     outdir = os.path.join(wd, 'out')
     os.makedirs(outdir, exist_ok=True)
     r = tlc.run('MCZStorage', cfg, workdir=wd, simulate='file=%s/tr,num=%d' % (outdir, num), depth=depth,
